@@ -32,6 +32,7 @@ static inline void probes(const Table& t, const ref::Layout& L) {
         if (t.cols[c].max_def > 1) SIM_COUNT("probe.nested_optional_chunk");
         if (t.cols[c].type == T_I96) SIM_COUNT("probe.int96_chunk");
         if (cl.fallback_after >= 0) SIM_COUNT("probe.dictionary_fallback_to_plain");
+        if (cl.plain_first > 0 && (size_t)cl.plain_first < cl.page_entries.size()) SIM_COUNT("probe.plain_pages_before_dictionary_pages");
     }
     if (L.junk_fields) SIM_COUNT("probe.unknown_thrift_fields");
     if (L.long_form) SIM_COUNT("probe.long_form_field_headers");
